@@ -453,6 +453,12 @@ pub fn ilit(v: i64) -> String {
 /// conjunction of the first `upto` trace entries of a run; `None` if it mentions a term that needs an
 /// auxiliary declaration (sqrt) or an uninterpreted function.  Used by the closure check.
 pub fn inline_path_condition(a: &Arena, upto: usize) -> Option<String> {
+    let lits: Vec<(u32, bool)> = a.trace[..upto].iter().map(|ev| (ev.cond, ev.outcome)).collect();
+    inline_conjunction(a, &lits)
+}
+
+/// conjunction of (condition, polarity) literals as a self-contained formula
+pub fn inline_conjunction(a: &Arena, conj: &[(u32, bool)]) -> Option<String> {
     use std::collections::BTreeSet;
     let mut need: BTreeSet<u32> = BTreeSet::new();
     fn collect_t(a: &Arena, t: u32, need: &mut BTreeSet<u32>) -> bool {
@@ -495,12 +501,12 @@ pub fn inline_path_condition(a: &Arena, upto: usize) -> Option<String> {
             B::Or(xs) => format!("(or {})", xs.iter().map(|&x| bexpr(a, x)).collect::<Vec<_>>().join(" ")),
         }
     }
-    for ev in &a.trace[..upto] {
-        if !collect_b(a, ev.cond, &mut need) {
+    for (c, _) in conj {
+        if !collect_b(a, *c, &mut need) {
             return None;
         }
     }
-    let lits: Vec<String> = a.trace[..upto].iter().map(|ev| if ev.outcome { bexpr(a, ev.cond) } else { format!("(not {})", bexpr(a, ev.cond)) }).collect();
+    let lits: Vec<String> = conj.iter().map(|(c, o)| if *o { bexpr(a, *c) } else { format!("(not {})", bexpr(a, *c)) }).collect();
     let mut body = format!("(and true {})", lits.join(" "));
     // ids grow with creation, so descending order nests definitions inside out
     for &t in need.iter().rev() {
@@ -524,4 +530,18 @@ pub fn inline_path_condition(a: &Arena, upto: usize) -> Option<String> {
         body = format!("(let ((t{} {})) {})", t, e, body);
     }
     Some(body)
+}
+
+/// the j-th recorded decision alone, as a self-contained formula (debugging aid)
+pub fn inline_path_condition_one(a: &Arena, j: usize) -> Option<String> {
+    let mut b = Arena { trace: vec![a.trace[j].clone()], ..clone_shallow(a) };
+    let _ = &mut b;
+    inline_path_condition(&b, 1)
+}
+fn clone_shallow(a: &Arena) -> Arena {
+    Arena {
+        symbolic: a.symbolic, mant_bits: a.mant_bits, inputs: a.inputs.clone(), vars: a.vars.clone(), terms: a.terms.clone(), tmap: Default::default(),
+        bools: a.bools.clone(), bmap: Default::default(), trace: vec![], known: Default::default(), obligations: vec![], bool_failures: vec![], bool_checks: 0,
+        observations: vec![], counters: a.counters.clone(), locs: Default::default(), last_to_f64: None, notes: vec![],
+    }
 }
